@@ -116,24 +116,6 @@ REPLAY_TIERS = {
 }
 
 
-def _split_runs(path, shards, wd, tag):
-    """Splits a trace at reset records into `shards` files of whole runs; returns [(path, first_index)]."""
-    lines = open(path).read().splitlines()
-    starts = [i for i, l in enumerate(lines) if '"t":"reset"' in l]
-    if not starts:
-        return []
-    per = max(1, (len(starts) + shards - 1) // shards)
-    out = []
-    for k in range(0, len(starts), per):
-        a = starts[k]
-        b = starts[k + per] if k + per < len(starts) else len(lines)
-        p = os.path.join(wd, f"{tag}-shard{k // per}.ndjson")
-        with open(p, "w") as f:
-            f.write("\n".join(lines[a:b]) + "\n")
-        out.append((p, a))
-    return out
-
-
 def _exhaustive_behaviours(name, wd, rt):
     """The exhaustive enumeration depends on the specification only (not on /repo): it is cached under .work,
     keyed by the text of the modules and the configuration."""
@@ -176,7 +158,7 @@ def spec_replay(prop, tier, seed, verdict, cov):
     args = ["--in", bfile, "--out", trace, "--seed", seed]
     summ = vlib.run_driver("replay-broker", args)
     recs = vlib.read_ndjson(trace)
-    shards = _split_runs(trace, rt["shards"], wd, "replay")
+    shards = vlib.split_runs(trace, rt["shards"], wd, "replay")
 
     def one(sh):
         p, off = sh
@@ -420,6 +402,20 @@ def replay(prop, path, seed):
                     a, b = vlib.run_of_record(recs, idx)
                     verdict.violation(why, dict(kind=data["kind"], driver_args=args, record_index=idx, trace=recs[a:b][:400]))
         log(f"re-run of the recorded driver invocation on the current tree: {verdict.violations} violation(s) of {prop}")
+    elif data.get("kind") == "spec-replay":
+        # the behaviour of MC_Replay.tla that produced the violating run is stored with the violating record
+        beh = data.get("violated_at", {}).get("behaviour")
+        if beh is None:
+            raise vlib.ToolError("the replay file carries no behaviour")
+        bfile = os.path.join(wd, "behaviour.ndjson")
+        with open(bfile, "w") as f:
+            f.write(json.dumps(beh) + "\n")
+        out = os.path.join(wd, "rerun.ndjson")
+        vlib.run_driver("replay-broker", ["--in", bfile, "--out", out, "--seed", seed])
+        res2 = vlib.tlc_trace("Trace_Obs.tla", "Trace_Obs.cfg", out)
+        recs = vlib.read_ndjson(out)
+        judge(prop, recs, res2, "spec-replay", ["--in", bfile, "--out", out, "--seed", seed], "stored behaviour", verdict)
+        log(f"re-run of the stored behaviour on the current tree: {verdict.violations} violation(s) of {prop}")
     elif data.get("kind") == "handshake":
         path = os.path.join(wd, "handshake.ndjson")
         vlib.run_driver("handshake", [path, seed])
